@@ -161,10 +161,11 @@ REGISTRY = {
                 'Non-trivial = at least one fault followed by at least one valid evaluation.',
         'components': {'real': REAL, 'stub': []},
         'assumptions': [
-            'partial: decided are (a\') a planted fault yields no number, (b) no collateral damage on valid specifications '
-            'afterwards, in the same process for Python-level refusals and after a simulated process restart for engine-raised '
-            'errors, (c) the missing-data code fails iff read; NOT decided: that the exception is the library\'s own type with '
-            'an explanatory message for every position (pure function of the specification; see DESIGN)',
+            'decided: (a) a planted fault is refused with the library\'s own error type (BiogemeError) and a message, at every '
+            'seeded position of the formula and through BIOGEME / get_value_c / get_value_and_derivatives, before any number; '
+            '(b) no collateral damage on valid specifications afterwards, in the same process for Python-level refusals and '
+            'after a simulated process restart for engine-raised errors; (c) the missing-data code fails iff read (engine error '
+            'type accepted there); fault kinds and positions are sampled, not enumerated',
             'read-set of an observation is the reference interpreter\'s (Elem branch taken, ConditionalSum terms whose condition '
             'holds, available alternatives of a logit)',
         ],
@@ -218,7 +219,8 @@ LEVEL_TEXT = {
            'Monte-Carlo value returned by the engine must equal the mean over the draws of the reference integrand with '
            'each draw variable replaced by its own recorded series; live objects must be unaffected by unrelated '
            'regenerations of the shared draw table and reproducible under a non-zero seed. Sampling, not proof.',
-    'C12': 'Partial. Faults are planted into running sessions (fault injection at the specification level) and the '
+    'C12': 'Faults are planted into running sessions (fault injection at the specification level) at seeded positions '
+           'under every operator kind: each must be refused with the library\'s own error type before any number; the '
            'recovery of every valid specification is checked afterwards, in-process and after a simulated process '
            'restart; missing-data cells are judged against the reference read-set. Sampling, not proof.',
     'C01': 'Partial. Seeded search over evaluation histories on shared mutable expression nodes; every returned value is '
